@@ -36,6 +36,8 @@ def run(ctx):
     ctx.each(r16m, ctx, repo)
     ctx.each(r16n, ctx, repo)
     ctx.each(cache_refresh_rule, ctx, repo, "R16o")
+    ctx.each(r16p, ctx, repo)
+    ctx.each(r16q, ctx, repo)
     ctx.each(informational, ctx, repo)
 
 
@@ -764,3 +766,90 @@ def cache_refresh_rule(ctx, repo, rule):
         ok = bool(st) and any(not _g(s_, stop=fi.node) and any(s_ is b for b in fi.node.body) for s_ in st)
         g = _g(st[0], stop=fi.node) if st else []
         ctx.check(ok, rule, fi, st[0] if st else fi.node, "`%s` rebuilt unconditionally" % f, "update_outcomes rebuilds the cache field `%s` only when %s: after a change of the outcomes alone (sampling, reconciliation, an edited value) get_outcome() keeps using the stale table" % (f, " and ".join(("" if p else "not ") + "`%s`" % ast.unparse(t)[:70] for t, p in g) or "a nested block runs"), stmt_text="cache-unconditional:%s" % f)
+
+
+def r16p(ctx, repo):
+    from ..core.cfg import branch_guards
+
+    ctx.rule("R16p", "the spending table is read back into the fields it was written from: every row `tdve.ts[<label>] = prog.<field>` that ProgramSet._write_spending writes is read by _read_spending with `set_ts(prog, <the same field>, tdve.ts[<the same label>])`, on a path that is taken for a book written by this library (unconditionally, or in the else branch of a legacy-label test); set_ts stores the series it was given under the field it was given")
+    wr = repo.func("programs", "ProgramSet._write_spending")
+    rd = repo.func("programs", "ProgramSet._read_spending")
+    written = {}
+    for s_ in own_nodes(wr.node):
+        if isinstance(s_, ast.Assign) and isinstance(s_.targets[0], ast.Subscript) and ast.unparse(s_.targets[0].value).endswith(".ts") and isinstance(s_.targets[0].slice, ast.Constant) and isinstance(s_.value, ast.Attribute):
+            written[s_.targets[0].slice.value] = s_.value.attr
+    ctx.require(len(written) >= 5, "R16p: fewer rows written by _write_spending (%s) than confirmed (5)" % sorted(written))
+    reads = []
+    for c in ast.walk(rd.node):
+        if isinstance(c, ast.Call) and ast.unparse(c.func) == "set_ts" and len(c.args) == 3 and isinstance(c.args[1], ast.Constant) and isinstance(c.args[2], ast.Subscript) and isinstance(c.args[2].slice, ast.Constant):
+            reads.append((c.args[2].slice.value, c.args[1].value, c))
+    for label, field in sorted(written.items()):
+        mine = [(l, f, c) for l, f, c in reads if l == label]
+        ok = len(mine) == 1 and mine[0][1] == field
+        if ok:
+            g = branch_guards(enclosing_stmt(mine[0][2]), stop=rd.node)
+            # taken for a freshly written book: no guard, or only negative legacy-label tests (`"Total spend" in tdve.ts` false)
+            ok = all((not pol) and isinstance(t, ast.Compare) and isinstance(t.ops[0], ast.In) and isinstance(t.left, ast.Constant) and t.left.value not in written for t, pol in g)
+        ctx.check(ok, "R16p", rd, enclosing_stmt(mine[0][2]) if mine else rd.node, "row `%s` read back into `%s`" % (label, field), "the row `%s`, written from `prog.%s`, is %s: after a round trip through the program book that series is lost, or ends up in another field" % (label, field, ("read into `prog.%s`" % mine[0][1]) if len(mine) == 1 and mine[0][1] != field else ("not read back (or only under a condition that a freshly written book does not meet)")), stmt_text="spending-row:%s" % label)
+    st = rd.nested.get("set_ts") if hasattr(rd, "nested") else None
+    ctx.require(st is not None, "R16p: helper set_ts not found in _read_spending")
+    pr, fn, ts = st.params[:3]
+    sa = [c for c in own_nodes(st.node) if isinstance(c, ast.Call) and ast.unparse(c.func) == "setattr"]
+    ok = len(sa) == 1 and [ast.unparse(a) for a in sa[0].args] == [pr, fn, ts] and not branch_guards(enclosing_stmt(sa[0]), stop=st.node)
+    ctx.check(ok, "R16p", st, enclosing_stmt(sa[0]) if sa else st.node, "set_ts stores the series under the given field, unconditionally", "set_ts does not (unconditionally) `setattr(%s, %s, %s)`: series read from the book are dropped or stored elsewhere" % (pr, fn, ts), stmt_text="set_ts")
+
+
+EFFECT_COLUMNS = {"baseline value": ("baseline", "baseline", "not None"), "coverage interaction": ("cov_interaction", "cov_interaction", "truthy"), "impact interaction": ("imp_interaction", "imp_interaction", "truthy"), "uncertainty": ("uncertainty", "sigma", "not None")}
+
+
+def r16q(ctx, repo):
+    from ..core import boolx as B
+    from ..core.cfg import branch_guards
+
+    ctx.rule("R16q", "the effects table is read back into the Covout fields it was written from: the four special columns the writer emits ('Baseline value', 'Coverage interaction', 'Impact interaction', 'Uncertainty', in that order, from covout.baseline / cov_interaction / imp_interaction / sigma) are recognised by _read_effects under exactly their own (lower-cased) header, stored into the local that is handed to the Covout constructor under the matching keyword, numeric cells whenever they are not None (0 is a value), text cells whenever they are non-empty; every other non-empty cell under a program's header becomes that program's outcome")
+    wr = repo.func("programs", "ProgramSet._write_effects")
+    rd = repo.func("programs", "ProgramSet._read_effects")
+    # writer: header order and the field written in each column
+    hdr = [l for l in ast.walk(wr.node) if isinstance(l, ast.List) and len(l.elts) == 4 and all(isinstance(e, ast.Constant) and isinstance(e.value, str) for e in l.elts) and l.elts[0].value.lower() == "baseline value"]
+    ctx.require(len(hdr) == 1, "R16q: the header list of _write_effects was not found")
+    labels = [e.value.lower() for e in hdr[0].elts]
+    ctx.check(labels == list(EFFECT_COLUMNS), "R16q", wr, enclosing_stmt(hdr[0]), "writer header order", "the effects writer's special columns are %s, not %s" % (labels, list(EFFECT_COLUMNS)), stmt_text="effects-headers")
+    for col, label in enumerate(labels, start=1):
+        if label not in EFFECT_COLUMNS:
+            continue
+        attr = EFFECT_COLUMNS[label][1]
+        w = [c for c in ast.walk(wr.node) if isinstance(c, ast.Call) and isinstance(c.func, ast.Attribute) and c.func.attr == "write" and len(c.args) >= 3 and isinstance(c.args[1], ast.Constant) and c.args[1].value == col and ("covout.%s" % attr) in ast.unparse(c.args[2])]
+        ctx.check(len(w) == 1, "R16q", wr, enclosing_stmt(w[0]) if w else wr.node, "column %d ('%s') written from covout.%s" % (col, label, attr), "the effects writer does not write `covout.%s` into column %d (header '%s')" % (attr, col, label), stmt_text="effects-col:%s" % label)
+    # reader: the dispatch chain over idx_to_header[i].lower()
+    ctor = [c for c in ast.walk(rd.node) if isinstance(c, ast.Call) and ast.unparse(c.func) == "Covout"]
+    ctx.require(len(ctor) == 1, "R16q: the Covout constructor call of _read_effects was not found")
+    kw = {k.arg: ast.unparse(k.value) for k in ctor[0].keywords}
+    for label, (local, attr, when) in EFFECT_COLUMNS.items():
+        ctorkw = "uncertainty" if label == "uncertainty" else local
+        st = [s_ for s_ in own_nodes(rd.node) if isinstance(s_, ast.Assign) and astq.is_name(s_.targets[0], kw.get(ctorkw, local)) and not (isinstance(s_.value, ast.Constant) and s_.value.value is None)]
+        ok = len(st) == 1 and kw.get(ctorkw) is not None
+        why = "is not stored exactly once into the local handed to Covout(%s=...)" % ctorkw
+        if ok:
+            lp = st[0]
+            while lp is not None and not (isinstance(lp, ast.For) and "enumerate" in ast.unparse(lp.iter)):
+                lp = getattr(lp, "_parent", None)
+            g = [(t, p) for t, p in branch_guards(st[0], stop=lp)]
+            pos = [(t, p) for t, p in g if p]
+            cell = None
+            for t, p in pos:
+                for x in ast.walk(t):
+                    if isinstance(x, ast.Attribute) and x.attr == "value":
+                        cell = ast.unparse(x)
+            hdr_tests = [t for t, p in pos if "idx_to_header" in ast.unparse(t) and isinstance(t, ast.Compare)]
+            ok = len(hdr_tests) == 1 and isinstance(hdr_tests[0].ops[0], ast.Eq) and label in [getattr(c_, "value", None) for c_ in [hdr_tests[0].left] + hdr_tests[0].comparators] and ".lower()" in ast.unparse(hdr_tests[0])
+            why = "is not read under the header test `idx_to_header[i].lower() == '%s'`" % label
+            if ok and cell is not None:
+                val_tests = [t for t, p in pos if cell in ast.unparse(t) and "idx_to_header" not in ast.unparse(t)]
+                want = "%s is not None" % cell if when == "not None" else cell
+                ok = len(val_tests) == 1 and B.equivalent(B.of(val_tests[0]), B.parse_cond(want))
+                why = "is read when `%s`, expected whenever `%s`%s" % (ast.unparse(val_tests[0]) if val_tests else "?", want, " (an entered 0 would be dropped)" if when == "not None" else "")
+                ok = ok and cell in ast.unparse(st[0].value)
+        ctx.check(ok, "R16q", rd, st[0] if st else rd.node, "column '%s' read into Covout(%s=...)" % (label, ctorkw), "the effects column '%s' %s: after a round trip through the program book the %s of an effect is lost or changed" % (label, why, label), stmt_text="effects-read:%s" % label)
+    pr = [s_ for s_ in own_nodes(rd.node) if isinstance(s_, ast.Assign) and isinstance(s_.targets[0], ast.Subscript) and astq.is_name(s_.targets[0].value, kw.get("progs", "progs"))]
+    ok = len(pr) == 1 and ast.unparse(pr[0].targets[0].slice) == "idx_to_header[i]" and "float(" in ast.unparse(pr[0].value)
+    ctx.check(ok, "R16q", rd, pr[0] if pr else rd.node, "program outcomes keyed by the column header", "program outcomes are not stored as `progs[idx_to_header[i]] = float(<cell>)`", stmt_text="effects-read:progs")
